@@ -7,7 +7,11 @@ package main
 //  (2) devSearch: deviation-bounded search around the synchronous default schedule, heights <= maxH, rounds <= maxR;
 //      layer k holds the states first reached with exactly k deviations; from each the default schedule is followed
 //      to a leaf and every deviation alternative of every state on the way opens an entry of layer k+1.
-//  progress: from every leaf the synchronous schedule with full gossip must commit a new height on all honest nodes.
+//      Deviations: withholding a delivery (until the next round / until after the prevote step of the next round /
+//      prevotes also until a LATER round than the next / for ever + explicit release), early timeouts, byzantine sends
+//      (proposal bundles, votes, votes preceded by a +2/3 claim, re-signed copies of a vote with fresh timestamps).
+//  progress: from every leaf the synchronous schedule with full gossip must commit a new height on all honest nodes
+//      within progR rounds; judged under immediate synchrony and under late synchrony (see progress).
 
 import (
 	"fmt"
@@ -77,11 +81,15 @@ func (g *GState) canon(e *Engine) string {
 }
 
 type Action struct {
-	Kind byte // 'd' deliver, 't' timeout, 'w' withhold (late), 'x' withhold (never), 'T' early timeout, 'b' byzantine send, 'c' +2/3 claim
+	Kind byte // 'd' deliver, 't' timeout, 'w'/'v'/'l' withhold (late), 'x' withhold (never), 'T' early timeout, 'b'/'B' byzantine send, '|' '~' continuation marks
 	Msg  int32
 	Slot int8
 	Mask uint8
+	seq  *bseq // byzantine sends: the exact inputs handed to every recipient, in order (+2/3 claim, vote, re-signed copies)
 }
+
+// bseq lists, per honest slot, the message ids of one byzantine send (one deviation).
+type bseq [3][]int32
 
 func (a Action) describe(e *Engine) string {
 	switch a.Kind {
@@ -95,18 +103,50 @@ func (a Action) describe(e *Engine) string {
 		return fmt.Sprintf("DEV withhold-until-next-round %s from %s", e.msgs.get(a.Msg).Key, maskStr(a.Mask))
 	case 'v':
 		return fmt.Sprintf("DEV withhold-until-after-prevote-of-next-round %s from %s", e.msgs.get(a.Msg).Key, maskStr(a.Mask))
+	case 'l':
+		return fmt.Sprintf("DEV withhold-until-a-later-round(+2) %s from %s", e.msgs.get(a.Msg).Key, maskStr(a.Mask))
 	case 'x':
 		return fmt.Sprintf("DEV drop %s for %s", e.msgs.get(a.Msg).Key, maskStr(a.Mask))
 	case 'b':
-		return fmt.Sprintf("DEV byzantine %s -> %s", e.msgs.get(a.Msg).Key, maskStr(a.Mask))
+		return fmt.Sprintf("DEV byzantine %s -> %s%s", e.msgs.get(a.Msg).Key, maskStr(a.Mask), a.seqStr(e))
 	case 'B':
-		return fmt.Sprintf("DEV byzantine +2/3-claim and %s -> %s", e.msgs.get(a.Msg).Key, maskStr(a.Mask))
+		return fmt.Sprintf("DEV byzantine +2/3-claim and %s -> %s%s", e.msgs.get(a.Msg).Key, maskStr(a.Mask), a.seqStr(e))
 	case '|':
 		return "--- synchronous continuation (byzantine validator silent, full gossip) ---"
+	case '~':
+		return "--- late synchrony: byzantine validator silent, no gossip and withheld messages stay withheld until every honest node has entered a later round ---"
 	case 'r':
 		return fmt.Sprintf("DEV release dropped %s -> n%d", e.msgs.get(a.Msg).Key, a.Slot)
 	}
 	return "?"
+}
+
+// seqStr spells out a byzantine send that is more than "the message itself to every recipient".
+func (a Action) seqStr(e *Engine) string {
+	if a.seq == nil {
+		return ""
+	}
+	plain := true
+	for i := 0; i < 3; i++ {
+		if a.Mask&(1<<i) != 0 && !(len(a.seq[i]) == 1 && a.seq[i][0] == a.Msg) {
+			plain = false
+		}
+	}
+	if plain {
+		return ""
+	}
+	var parts []string
+	for i := 0; i < 3; i++ {
+		if a.Mask&(1<<i) == 0 {
+			continue
+		}
+		var ks []string
+		for _, id := range a.seq[i] {
+			ks = append(ks, e.msgs.get(id).Key)
+		}
+		parts = append(parts, fmt.Sprintf("n%d: %s", i, strings.Join(ks, ", ")))
+	}
+	return " [" + strings.Join(parts, "; ") + "]"
 }
 
 func maskStr(m uint8) string {
@@ -120,20 +160,24 @@ func maskStr(m uint8) string {
 }
 
 type Params struct {
-	maxH      int64 // explore until every honest node has committed maxH
-	maxR      int   // cut when an honest node exceeds this round
-	bound     int   // deviation bound
-	byzHonest bool  // slot 3 runs the honest code by default (else the byzantine validator is silent by default)
-	devW      bool  // withholding deviations
-	devDrop   bool
-	devT      bool // early timeouts
-	devB      bool // byzantine sends
-	devC      bool // byzantine votes may be preceded by a +2/3 claim (so that conflicting votes are accepted)
-	subsets   bool // byzantine sends / withholding to every subset (else: single recipients and all)
+	maxH       int64 // explore until every honest node has committed maxH
+	maxR       int   // cut when an honest node exceeds this round
+	bound      int   // deviation bound
+	byzHonest  bool  // slot 3 runs the honest code by default (else the byzantine validator is silent by default)
+	devW       bool  // withholding deviations
+	devDrop    bool
+	devT       bool // early timeouts
+	devB       bool // byzantine sends
+	devC       bool // byzantine votes may be preceded by a +2/3 claim (so that conflicting votes are accepted)
+	devR       bool // byzantine votes are followed by re-signed copies with fresh timestamps (t1, t2) as long as the recipient reacts
+	devL       bool // late delivery: a prevote is withheld until the recipient has entered a LATER round than the next one
+	prevoteVoc bool // deviation vocabulary restricted to the prevote phase: withheld prevotes, byzantine prevotes
+	lateGST    bool // bounded progress also under late synchrony (see progress)
+	subsets    bool // byzantine sends / withholding to every subset (else: single recipients and all)
 	activeOnly bool // postpone byzantine sends that do not change the recipient's behaviour state now
-	progAll   bool // bounded-progress continuation also from leaves where every honest node committed maxH
-	progR     int  // bounded progress: rounds allowed in the continuation
-	maxStates int64
+	progAll    bool // bounded-progress continuation also from leaves where every honest node committed maxH
+	progR      int  // bounded progress: rounds allowed in the continuation
+	maxStates  int64
 }
 
 type Search struct {
@@ -161,8 +205,9 @@ type Search struct {
 
 	samples []leafSample
 
-	menuMu sync.Mutex
-	menu   map[string][]*Msg
+	menuMu  sync.Mutex
+	menu    map[string][]*Msg
+	resends map[int32]*Msg
 }
 
 type pedge struct {
@@ -180,7 +225,7 @@ type Found struct {
 }
 
 func newSearch(e *Engine, p Params, r interface{ Expired() bool }) *Search {
-	return &Search{e: e, p: p, r: r, visited: map[gkey]int8{}, parent: map[gkey]pedge{}, viols: map[string]*Found{}, hist: map[string]int64{}, pmemo: map[pkey]pval{}, menu: map[string][]*Msg{}}
+	return &Search{e: e, p: p, r: r, visited: map[gkey]int8{}, parent: map[gkey]pedge{}, viols: map[string]*Found{}, hist: map[string]int64{}, pmemo: map[pkey]pval{}, menu: map[string][]*Msg{}, resends: map[int32]*Msg{}}
 }
 
 func (s *Search) outcome(c string) {
@@ -401,16 +446,54 @@ func (s *Search) trace(k gkey) []Action {
 // ---------------------------------------------------------------------------------------------------------------
 // byzantine menu
 
-func (s *Search) byzVote(h int64, r int, t types.SignedMsgType, bid types.BlockID) *Msg {
+// nStamps is the size of the byzantine signer's timestamp menu {t0, t1, t2}: the honest code runs on a constant logical
+// clock, the byzantine key may sign the same (height, round, type, block) with any of these timestamps, which gives
+// votes that differ ONLY in timestamp (and therefore in signature): duplicated but not byte-identical votes.
+const nStamps = 3
+
+func (s *Search) byzVote(h int64, r int, t types.SignedMsgType, bid types.BlockID, variant int) *Msg {
 	sys := s.e.sys
-	v := &types.Vote{Type: t, Height: h, Round: r, BlockID: bid, Timestamp: genesisTime.Add(timeIota(h)),
+	v := &types.Vote{Type: t, Height: h, Round: r, BlockID: bid, Timestamp: genesisTime.Add(timeIota(h) + time.Duration(variant)*time.Millisecond),
 		ValidatorAddress: sys.keys[sys.byz].addr, ValidatorIndex: sys.byz}
 	sig, err := sys.keys[sys.byz].priv.Sign(v.SignBytes(chainID))
 	if err != nil {
 		panic(err)
 	}
 	v.Signature = sig
-	return s.e.msgs.intern(sys.voteMsg(v, true))
+	m := sys.voteMsg(v, true)
+	m.Var = variant
+	return s.e.msgs.intern(m)
+}
+
+// resend returns the copy of the byzantine vote m that is signed with the next timestamp of the menu (nil after the last).
+func (s *Search) resend(m *Msg) *Msg {
+	if m.Kind != 'V' || !m.Byz || m.From != s.e.sys.byz || m.Var+1 >= nStamps {
+		return nil
+	}
+	s.menuMu.Lock()
+	x := s.resends[m.id]
+	s.menuMu.Unlock()
+	if x != nil {
+		return x
+	}
+	x = s.byzVote(m.H, m.R, m.T, m.BID, m.Var+1)
+	if x == m {
+		return nil // (24-bit key collision between two copies: treat the menu as exhausted)
+	}
+	s.menuMu.Lock()
+	s.resends[m.id] = x
+	s.menuMu.Unlock()
+	return x
+}
+
+// firstUnheld returns the first copy of the byzantine vote m (in timestamp-menu order) that the node in local state l
+// has not accepted yet: sending a vote the node already holds means re-signing it with a fresh timestamp. Timestamps
+// are interchangeable, so "the k-th copy a node gets carries t_k" is a symmetry reduction, not a restriction.
+func (s *Search) firstUnheld(l *Local, m *Msg) *Msg {
+	for m != nil && hasSorted(l.acc, m.id) {
+		m = s.resend(m)
+	}
+	return m
 }
 
 func (s *Search) byzProposal(blk *types.Block, ps *types.PartSet, round, pol int) *Msg {
@@ -439,7 +522,9 @@ func (s *Search) values(pool []*Msg, h int64) []types.BlockID {
 	sys := s.e.sys
 	if h == 1 {
 		add(types.BlockID{Hash: sys.blkA.Hash(), PartsHeader: sys.partsA.Header()})
-		add(types.BlockID{Hash: sys.blkB.Hash(), PartsHeader: sys.partsB.Header()})
+		if !s.p.prevoteVoc { // without byzantine proposals A and B are interchangeable (blocks no honest node has seen)
+			add(types.BlockID{Hash: sys.blkB.Hash(), PartsHeader: sys.partsB.Header()})
+		}
 	}
 	for _, m := range pool {
 		if m.Kind == 'P' && m.Prop != nil && m.H == h {
@@ -477,6 +562,9 @@ func (s *Search) byzMenu(g *GState, pool []*Msg, maxRound int) []*Msg {
 	sort.Slice(hkeys, func(i, j int) bool { return hkeys[i] < hkeys[j] })
 	for _, h := range hkeys {
 		rmax := hs[h] + 1
+		if s.p.prevoteVoc {
+			rmax = hs[h] // prevote-phase vocabulary: no votes for rounds nobody has entered yet
+		}
 		if rmax > maxRound {
 			rmax = maxRound
 		}
@@ -501,7 +589,7 @@ func (s *Search) byzMenu(g *GState, pool []*Msg, maxRound int) []*Msg {
 		for r := 0; r <= d.rmax; r++ {
 			for _, t := range []types.SignedMsgType{types.PrevoteType, types.PrecommitType} {
 				for _, v := range d.vals {
-					out = append(out, s.byzVote(d.h, r, t, v))
+					out = append(out, s.byzVote(d.h, r, t, v, 0))
 				}
 			}
 		}
@@ -658,7 +746,12 @@ func (s *Search) push(next *[]entry, g *GState, from gkey, act Action, bad []Vio
 
 func (s *Search) alternatives(g *GState, k gkey, pool []*Msg, cands []cand, def Action, next *[]entry) {
 	// withholding of the message that is about to be delivered
-	if (s.p.devW || s.p.devDrop) && def.Kind == 'd' && def.Slot < 3 {
+	defMsg := (*Msg)(nil)
+	if def.Kind == 'd' {
+		defMsg = s.e.msgs.get(def.Msg)
+	}
+	isPrevote := defMsg != nil && defMsg.Kind == 'V' && defMsg.T == types.PrevoteType
+	if (s.p.devW || s.p.devDrop) && def.Kind == 'd' && def.Slot < 3 && (!s.p.prevoteVoc || isPrevote) {
 		var cs []int
 		for _, c := range cands {
 			if c.slot < 3 {
@@ -666,9 +759,15 @@ func (s *Search) alternatives(g *GState, k gkey, pool []*Msg, cands []cand, def 
 			}
 		}
 		for _, mask := range subsetsOf(cs, int(def.Slot), s.p.subsets) {
-			for _, kind := range []byte{'w', 'v', 'x'} {
+			for _, kind := range []byte{'w', 'v', 'l', 'x'} {
 				if (kind != 'x' && !s.p.devW) || (kind == 'x' && !s.p.devDrop) {
 					continue
+				}
+				if kind == 'l' && !(s.p.devL && isPrevote) {
+					continue
+				}
+				if (kind == 'v' || kind == 'w') && s.p.prevoteVoc && s.p.devL {
+					continue // prevote-phase vocabulary: the late kind subsumes the two earlier release points for the liveness question
 				}
 				ng := g.clone()
 				for i := 0; i < 3; i++ {
@@ -679,6 +778,8 @@ func (s *Search) alternatives(g *GState, k gkey, pool []*Msg, cands []cand, def 
 					switch kind {
 					case 'v': // until the node is past the prevote step of its next round
 						w.untilR, w.untilS = w.untilR+1, int32(cstypes.RoundStepPrevote)
+					case 'l': // late delivery: until the node has entered a later round than the next one
+						w.untilR = w.untilR + 1
 					case 'x':
 						w.untilH = 1 << 40
 					}
@@ -726,44 +827,69 @@ func (s *Search) alternatives(g *GState, k gkey, pool []*Msg, cands []cand, def 
 			s.push(next, ng, k, Action{Kind: 'T', Slot: int8(i)}, bad)
 		}
 	}
-	// byzantine sends: a vote / proposal of the menu to a subset; when the recipient would reject the vote as
-	// conflicting, the vote is preceded by the byzantine validator's +2/3 claim for that block (one deviation).
+	// byzantine sends: a vote / proposal of the menu to a subset (one deviation). A vote the recipient already holds is
+	// sent as a re-signed copy with a fresh timestamp; when the recipient would reject the vote as conflicting, it is
+	// preceded by the byzantine validator's +2/3 claim for that block; and the vote is followed by further re-signed
+	// copies (up to nStamps in total) for as long as the recipient still reacts to them.
 	// Sends that do not change the recipient's behaviour state now are postponed (they stay available later).
 	if s.p.devB {
 		sys := s.e.sys
 		for _, m := range s.byzMenu(g, pool, s.p.maxR) {
+			if s.p.prevoteVoc && !(m.Kind == 'V' && m.T == types.PrevoteType) {
+				continue
+			}
 			var cs []int
-			opts := map[int][]*Edge{}
+			var opts [3][]*Edge
+			var seq bseq
 			withClaim := false
 			for _, i := range s.honestSlots() {
 				l := g.loc[i]
 				if l.obs.Dead != "" || l.obs.H > s.p.maxH || l.obs.H != m.H {
 					continue
 				}
-				ed := s.e.step(l, m.id)
-				if !ed.noop {
-					if s.p.activeOnly && !ed.active {
+				first := m
+				if m.Kind == 'V' && s.p.devR {
+					if first = s.firstUnheld(l, m); first == nil {
 						continue
 					}
-					cs = append(cs, i)
-					opts[i] = []*Edge{ed}
-					continue
 				}
-				if m.Kind != 'V' || !s.p.devC {
-					continue
+				var path []*Edge
+				var ins []int32
+				claimed := false
+				ed := s.e.step(l, first.id)
+				if !ed.noop {
+					path, ins = append(path, ed), append(ins, first.id)
+				} else {
+					if m.Kind != 'V' || !s.p.devC {
+						continue
+					}
+					c := s.e.msgs.intern(sys.claimMsg(sys.byz, m.H, m.R, m.T, m.BID, true))
+					ec := s.e.step(l, c.id)
+					if ec.noop {
+						continue
+					}
+					ev := s.e.step(ec.to, first.id)
+					if ev.noop {
+						continue
+					}
+					path, ins = append(path, ec, ev), append(ins, c.id, first.id)
+					claimed = true
 				}
-				c := s.e.msgs.intern(sys.claimMsg(sys.byz, m.H, m.R, m.T, m.BID, true))
-				ec := s.e.step(l, c.id)
-				if ec.noop {
-					continue
+				if m.Kind == 'V' && s.p.devR {
+					for nx := s.resend(first); nx != nil; nx = s.resend(nx) {
+						e2 := s.e.step(path[len(path)-1].to, nx.id)
+						if e2.noop {
+							break
+						}
+						path, ins = append(path, e2), append(ins, nx.id)
+					}
 				}
-				ev := s.e.step(ec.to, m.id)
-				if ev.noop || (s.p.activeOnly && ev.to.beh == l.beh) {
+				if s.p.activeOnly && path[len(path)-1].to.beh == l.beh {
 					continue
 				}
 				cs = append(cs, i)
-				opts[i] = []*Edge{ec, ev}
-				withClaim = true
+				opts[i], seq[i] = path, ins
+				withClaim = withClaim || claimed
 			}
 			if len(cs) == 0 {
 				continue
@@ -775,14 +901,16 @@ func (s *Search) alternatives(g *GState, k gkey, pool []*Msg, cands []cand, def 
 			for _, mask := range subsetsOf(cs, -1, s.p.subsets) {
 				ng := g.clone()
 				var bad []Viol
+				sq := new(bseq)
 				for _, i := range cs {
 					if mask&(1<<i) != 0 {
+						sq[i] = seq[i]
 						for _, ed := range opts[i] {
 							bad = append(bad, s.move(ng, i, ed)...)
 						}
 					}
 				}
-				s.push(next, ng, k, Action{Kind: kind, Msg: m.id, Mask: mask}, bad)
+				s.push(next, ng, k, Action{Kind: kind, Msg: m.id, Mask: mask, seq: sq}, bad)
 			}
 		}
 	}
@@ -913,23 +1041,41 @@ func (s *Search) leaf(g *GState, k gkey) {
 	if s.p.progR <= 0 {
 		return
 	}
-	res, rounds, tail, fin := s.progress(g)
-	if rounds > int(s.maxProgRounds.Load()) {
-		s.maxProgRounds.Store(int64(rounds))
+	modes := []bool{false}
+	if s.p.lateGST {
+		modes = append(modes, true)
 	}
-	switch res {
-	case "ok":
-		s.outcome("progress:ok")
-	default:
-		s.outcome("progress:" + res)
-		s.report(fin, k, Viol{"progress:" + res, fmt.Sprintf("synchronous continuation with full gossip from this state: %s", res)}, append([]Action{{Kind: '|'}}, tail...))
+	for _, late := range modes {
+		res, rounds, tail, fin := s.progress(g, late)
+		if rounds > int(s.maxProgRounds.Load()) {
+			s.maxProgRounds.Store(int64(rounds))
+		}
+		pre := "progress:"
+		if late {
+			pre = "progress-late:"
+		}
+		switch res {
+		case "ok":
+			s.outcome(pre + "ok")
+		default:
+			s.outcome(pre + res)
+			how := "synchronous continuation with full gossip from this state"
+			if late {
+				how = "late synchrony (no gossip, withheld messages kept back until every honest node has entered a later round), then synchronous continuation with full gossip"
+			}
+			s.report(fin, k, Viol{"progress:" + res, fmt.Sprintf("%s: %s", how, res)}, tail)
+		}
 	}
 }
 
 // progress continues synchronously (byzantine validator silent, everything held by anyone gossiped to everyone, +2/3
 // claims included, timeouts only when nothing is deliverable) until every honest node has committed one more height
 // than the most advanced honest node had at the leaf.
-func (s *Search) progress(leaf *GState) (string, int, []Action, *GState) {
+// late=true puts a phase of LATE synchrony in front: the byzantine validator is silent at once, but nothing is gossiped
+// yet (only what the honest nodes publish themselves is delivered) and withheld messages stay withheld, until every
+// honest node has entered a later round than the one it was in at the leaf (or nothing is enabled any more). Only then
+// is everything delivered: votes a node missed reach it in a round it has already left ("late polka").
+func (s *Search) progress(leaf *GState, late bool) (string, int, []Action, *GState) {
 	s.progChecks.Add(1)
 	g := &GState{loc: leaf.loc}
 	g.loc[3] = nil
@@ -940,6 +1086,56 @@ func (s *Search) progress(leaf *GState) (string, int, []Action, *GState) {
 		}
 	}
 	goal++
+	tail := []Action{{Kind: '|'}}
+	pre := 0
+	if late {
+		tail[0].Kind = '~'
+		for _, w := range leaf.wh {
+			if w.slot < 3 {
+				g.wh = append(g.wh, w)
+			}
+		}
+		var h0, r0 [3]int64
+		for _, i := range s.honestSlots() {
+			h0[i], r0[i] = g.loc[i].obs.H, int64(g.loc[i].obs.R)
+		}
+		for ; pre < 600; pre++ {
+			if s.agreement(g) != nil {
+				break
+			}
+			moved := true
+			for _, i := range s.honestSlots() {
+				o := g.loc[i].obs
+				if len(o.Committed) >= goal || o.Dead != "" {
+					continue
+				}
+				if !(o.H > h0[i] || (o.H == h0[i] && int64(o.R) > r0[i])) {
+					moved = false
+				}
+			}
+			if moved {
+				break
+			}
+			cands := s.candidates(g, s.pool(g, false), false, true, goal)
+			var act Action
+			var ed *Edge
+			if len(cands) > 0 {
+				act, ed = Action{Kind: 'd', Msg: cands[0].m.id, Slot: int8(cands[0].slot)}, cands[0].ed
+			} else if t := s.nextTimeout(g, goal); t >= 0 {
+				act, ed = Action{Kind: 't', Slot: int8(t)}, s.e.step(g.loc[t], inTimeout)
+			} else {
+				break
+			}
+			g.loc[act.Slot] = ed.to
+			g.release()
+			tail = append(tail, act)
+			for _, b := range ed.bad {
+				s.report(g, leaf.key(), b, append([]Action(nil), tail...))
+			}
+		}
+		g.wh = nil
+		tail = append(tail, Action{Kind: '|'})
+	}
 	r0 := 0
 	for _, i := range s.honestSlots() {
 		if o := g.loc[i].obs; int(o.H) == goal && o.R > r0 {
@@ -948,7 +1144,6 @@ func (s *Search) progress(leaf *GState) (string, int, []Action, *GState) {
 	}
 	limit := r0 + s.p.progR
 	var path []pkey
-	var tail []Action
 	result := ""
 	maxRound := r0
 	memoRem := 0
@@ -1022,7 +1217,7 @@ func (s *Search) progress(leaf *GState) (string, int, []Action, *GState) {
 		g.loc[act.Slot] = ed.to
 		tail = append(tail, act)
 		for _, b := range ed.bad {
-			s.report(g, leaf.key(), b, append([]Action{{Kind: '|'}}, tail...))
+			s.report(g, leaf.key(), b, append([]Action(nil), tail...))
 		}
 	}
 	if result != "ok" {
@@ -1034,15 +1229,26 @@ func (s *Search) progress(leaf *GState) (string, int, []Action, *GState) {
 				break
 			}
 		}
+		if !strings.Contains(result, ":pending-commit-abandoned") && result != "agreement-broken-in-continuation" {
+			locks := map[string]bool{}
+			for _, i := range s.honestSlots() {
+				if o := g.loc[i].obs; len(o.Committed) < goal && int(o.H) == goal && o.Locked != "" {
+					locks[o.Locked] = true
+				}
+			}
+			if len(locks) > 1 {
+				result += ":honest-nodes-locked-on-different-blocks"
+			}
+		}
 	}
 	// the continuation from a state is deterministic: count its full length even when the memo cut it short
-	total := int64(nsteps + memoRem)
+	total := int64(pre + nsteps + memoRem)
 	s.progSteps.Add(total)
 	s.transitions.Add(total)
 	if result == "ok" {
 		s.pmu.Lock()
 		for i, pk := range path {
-			s.pmemo[pk] = pval{rem: int(total) - i, maxRound: maxRound}
+			s.pmemo[pk] = pval{rem: int(total) - pre - i, maxRound: maxRound}
 		}
 		s.pmu.Unlock()
 		return "ok", maxRound - r0, nil, g
@@ -1065,7 +1271,8 @@ type BFSResult struct {
 // bfs explores every interleaving of: delivery of any published message, any byzantine menu message (proposals A, B,
 // B with an invalid POL round, prevotes / precommits for every known block and nil at rounds 0..maxR, +2/3 claims for
 // the same), any +2/3 claim an honest node can make, to any honest node; and any pending timeout. Loss = never
-// delivered; duplication / re-delivery = delivering again (mostly no-ops, which are self loops).
+// delivered; duplication / re-delivery = delivering again (mostly no-ops, which are self loops); duplication with a fresh
+// signature = a byzantine vote the node already holds, re-signed with the next timestamp of the menu.
 func (s *Search) bfs(depth int, stride int, par func(n int, f func(i int))) BFSResult {
 	var res BFSResult
 	g0 := &GState{}
@@ -1132,6 +1339,15 @@ func (s *Search) bfs(depth int, stride int, par func(n int, f func(i int))) BFSR
 					}
 					a := Action{Kind: kind, Msg: m.id, Slot: int8(slot), Mask: 1 << slot}
 					try(slot, m.id, a)
+				}
+				// duplication with a fresh signature: a byzantine vote this node already holds, re-signed with the next timestamp
+				for _, m := range menu {
+					if m.Kind != 'V' || !hasSorted(l.acc, m.id) {
+						continue
+					}
+					if x := s.firstUnheld(l, m); x != nil {
+						try(slot, x.id, Action{Kind: 'b', Msg: x.id, Slot: int8(slot), Mask: 1 << slot})
+					}
 				}
 				if l.obs.TOPending {
 					try(slot, inTimeout, Action{Kind: 't', Slot: int8(slot)})
